@@ -10,10 +10,13 @@ import contracts.factories as FC
 import contracts.rawparser as RPc
 
 F = CT.FILE
+import contracts.excel as XS
 FUNCTIONS = [(F, '_TabulationCutoff._init_cutoff'), (FC.FILE, 'PairTabulationFactory.extract_cutoffs'), (FC.FILE, 'EAMTabulationFactory.extract_cutoffs'),
              (FC.FILE, 'DLPOLY_PairTabulationFactory.extract_cutoffs'), (FC.FILE, 'LAMMPS_PairTabulationFactory.extract_cutoffs'), (contracts.pair_tabulation.FILE, 'LAMMPS_PairTabulation.write'),
              # 'the two that are given': a key [Tabulation] does not define is absent (a variable of the same name does not stand in for it), so the default applies
-             ('atsim/potentials/config/_config_parser.py', '_RawConfigParser.get'), ('atsim/potentials/config/_config_parser.py', '_RawConfigParser.has_option')]
+             ('atsim/potentials/config/_config_parser.py', '_RawConfigParser.get'), ('atsim/potentials/config/_config_parser.py', '_RawConfigParser.has_option'),
+             # the grids of the spreadsheet targets: value k is k*cutoff/(n-1) (generators, eager view: contracts/excel.py)
+             ('atsim/potentials/pair_tabulation.py', '_r_value_iterator'), ('atsim/potentials/eam_tabulation.py', '_rho_value_iterator')]
 
 def lemmas():
     out = []
